@@ -30,7 +30,7 @@ _ASSUME = [
 PROPS = {
     'C01': {
         'level': 'exploration',
-        'batches': [{'mode': 'fuzzreg', 'quick': 'all', 'thorough': 'all', 'chunk': 40}, {'mode': 'load', 'quick': 16000, 'thorough': 1500000, 'chunk': 250}],
+        'batches': [{'mode': 'fuzzreg', 'quick': 'all', 'thorough': 'all', 'chunk': 40}, {'mode': 'load', 'quick': 40000, 'thorough': 1500000, 'chunk': 250}],
         'rule': 'one run = one simulated font storage (corpus font + seeded storage/file faults) + one constructor call + the full face query script + destroy; '
                 'distinct = distinct plan hash; non-trivial = the constructor returned a face and the query script ran',
         'require_probes': ['load:accepted-unfaulted', 'load:rejected'],
@@ -38,7 +38,7 @@ PROPS = {
     },
     'C02': {
         'level': 'exploration',
-        'batches': [{'mode': 'fuzzreg', 'quick': 'all', 'thorough': 'all', 'chunk': 40}, {'mode': 'shape', 'quick': 5000, 'thorough': 500000, 'chunk': 100}, {'mode': 'synth', 'quick': 6000, 'thorough': 600000, 'chunk': 200}],
+        'batches': [{'mode': 'fuzzreg', 'quick': 'all', 'thorough': 'all', 'chunk': 40}, {'mode': 'shape', 'quick': 12000, 'thorough': 500000, 'chunk': 100}, {'mode': 'synth', 'quick': 15000, 'thorough': 600000, 'chunk': 200}],
         'rule': 'one run = one (possibly rotten) font storage accepted by gr_make_face + 3..40 gr_make_seg calls with the full accessor script; '
                 'distinct = distinct plan hash; non-trivial = face accepted and at least one segment operation executed',
         'require_probes': ['seg:returned', 'seg:exercised'],
@@ -47,7 +47,7 @@ PROPS = {
 }
 PROPS['C19'] = {
     'level': 'exploration',
-    'batches': [{'mode': 'just', 'quick': 30000, 'thorough': 3000000, 'chunk': 400}],
+    'batches': [{'mode': 'just', 'quick': 60000, 'thorough': 3000000, 'chunk': 400}],
     'rule': 'one run = one segment (font x text x dir 0..7 x optional gr_font) cut and justified by a seeded history of 1..12 gr_slot_linebreak_before / gr_seg_justify calls, '
             'chain/order/gid/finiteness oracle after every call; distinct = distinct plan hash; non-trivial = the segment was made and at least one break/justify call executed',
     'require_probes': ['just:justify', 'just:linebreak', 'just:justify-multiline'],
@@ -56,8 +56,8 @@ PROPS['C19'] = {
 
 _MON = {
     'level': 'exploration',
-    'batches': [{'mode': 'synth', 'quick': 8000, 'thorough': 800000, 'chunk': 200}, {'mode': 'shape', 'quick': 3000, 'thorough': 300000, 'chunk': 100}, {'mode': 'hist', 'quick': 1500, 'thorough': 150000, 'chunk': 100},
-                {'mode': 'just', 'quick': 4000, 'thorough': 400000, 'chunk': 400}, {'mode': 'conf', 'quick': 1000, 'thorough': 100000, 'chunk': 100}],
+    'batches': [{'mode': 'synth', 'quick': 16000, 'thorough': 800000, 'chunk': 200}, {'mode': 'shape', 'quick': 6000, 'thorough': 300000, 'chunk': 100}, {'mode': 'hist', 'quick': 3000, 'thorough': 150000, 'chunk': 100},
+                {'mode': 'just', 'quick': 8000, 'thorough': 400000, 'chunk': 400}, {'mode': 'conf', 'quick': 2000, 'thorough': 100000, 'chunk': 100}],
     'require_probes': ['monitor:segments', 'seg:returned'],
     'assumptions': _ASSUME + ['the program dimension is reached through storage faults on the shipped rule sets, not through a rule compiler'],
 }
@@ -71,7 +71,7 @@ for _id, _what in (('C03', 'glyph stream (next/prev walk, count, index permutati
 
 PROPS['C08'] = {
     'level': 'exploration',
-    'batches': [{'mode': 'hist', 'quick': 8000, 'thorough': 800000, 'chunk': 100}],
+    'batches': [{'mode': 'hist', 'quick': 20000, 'thorough': 800000, 'chunk': 100}],
     'rule': 'one run = one face with a seeded history of 0..40 API calls (segments kept alive or destroyed, feature values, labels, queries, fonts, line breaks, justification) '
             'followed by a probe gr_make_seg and a self-report, compared bit-for-bit with a twin face that has no history; distinct = distinct plan hash; '
             'non-trivial = the face loaded and the probe returned a comparable dump',
@@ -80,7 +80,7 @@ PROPS['C08'] = {
 }
 PROPS['C10'] = {
     'level': 'exploration',
-    'batches': [{'mode': 'conf', 'quick': 5000, 'thorough': 500000, 'chunk': 100}],
+    'batches': [{'mode': 'conf', 'quick': 12000, 'thorough': 500000, 'chunk': 100}],
     'rule': 'one run = one pristine corpus font loaded under a reference configuration (options 0, callbacks) and 1..3 seeded variants (options 0..7 x file/callbacks x constructor variant x '
             'release_table present/NULL x short ops.size), the same 4..30 operations executed on each and compared bit-for-bit; distinct = distinct plan hash; non-trivial = at least one operation compared',
     'require_probes': ['seg:returned'],
@@ -88,7 +88,7 @@ PROPS['C10'] = {
 }
 PROPS['C16'] = {
     'level': 'exploration',
-    'batches': [{'mode': 'sweep', 'quick': 26624, 'thorough': 26624, 'chunk': 400}, {'mode': 'borrow', 'quick': 12000, 'thorough': 1200000, 'chunk': 150}],
+    'batches': [{'mode': 'sweep', 'quick': 26624, 'thorough': 26624, 'chunk': 400}, {'mode': 'borrow', 'quick': 25000, 'thorough': 1200000, 'chunk': 150}],
     'rule': 'sweep: every (font x options 0..7 x 13 table tags x request 0/1 x 8 single storage faults) plan; borrow: seeded histories over 1..3 faces (faulted or not) with interleaved '
             'destruction; ledger oracle after every call (exactly-once release, none after destroy, nothing outstanding after a failed constructor, no request after a preloadAll constructor, '
             'empty allocation set at quiescence); distinct = distinct plan hash; non-trivial = at least one API call after the constructor',
@@ -141,7 +141,7 @@ MANIFEST_TEXT = {
 
 PROPS['C18'] = {
     'level': 'exploration',
-    'batches': [{'mode': 'feat', 'quick': 12000, 'thorough': 1200000, 'chunk': 200}],
+    'batches': [{'mode': 'feat', 'quick': 40000, 'thorough': 1200000, 'chunk': 200}],
     'rule': 'one run = 1..2 faces whose Feat/Sill/name tables are (4 of 5 times) synthesised with bit widths that land on, short of and across 32-bit word boundaries, and a seeded history of '
             '5..60 for_lang/clone/set/get/destroy/label operations checked op by op against an independent reference map, with a full read-back of every feature of every live object after each update; '
             'distinct = distinct plan hash; non-trivial = at least one feature-value operation was judged',
@@ -154,7 +154,7 @@ NOT_APPLICABLE.pop('C18')
 
 PROPS['C14'] = {
     'level': 'exploration',
-    'batches': [{'mode': 'lz4', 'quick': 2400, 'thorough': 200000, 'chunk': 30}, {'mode': 'lz4c', 'quick': 60000, 'thorough': 6000000, 'chunk': 2000}],
+    'batches': [{'mode': 'lz4', 'quick': 3000, 'thorough': 200000, 'chunk': 30}, {'mode': 'lz4c', 'quick': 60000, 'thorough': 6000000, 'chunk': 2000}],
     'rule': 'lz4 (end to end): one run = an Awami font whose Silf and/or Glat is served in the compressed layout produced by a seeded encoder of valid LZ4 encodings (or the shipped encoding), '
             'half of the runs with bit-rot/truncation/torn faults on the compressed bytes or header; loaded faces are compared bit-for-bit (self-report + 3..20 segments) with a twin serving '
             'the reference decoder\'s plaintext; lz4c (component): lz4::decompress on exact-size heap buffers vs the reference decoder; distinct = distinct plan hash; '
